@@ -43,6 +43,8 @@ def _sum_terms(e):
 
 def run(model, rep, tier):
     rep.explanation = __doc__.strip()
+    from ._common import caches_for
+    caches_for(model, rep, 'C34')
     rep.not_decided = 'the barrier values; that transitions() reports the reverse transition with the opposite displacement'
     rep.rule('antisymmetric-weights', 'initial- and final-centred interaction lists mirror each other with opposite weight')
     rep.rule('orientation', 'the initial-centred interactions carry the minus sign and are evaluated at the initial cell')
